@@ -1,5 +1,6 @@
 """C06 - port behaviour: driving-point impedance and Thevenin/Norton equivalents."""
 from __future__ import annotations
+import random
 import importlib
 from ..common import CaseResult, Naming, N_SCHEMES, stable_hash, gauss, rat, close, call, exc_sig, ensure_repo_import
 from ..netbuild import build_network, UNITS, role_of, scales, project_network
@@ -22,11 +23,35 @@ def models(tier, seed):
 
 
 def required_tags(tier):
-    return ['has_ideal_v', 'no_ideal_v', 'port:defined', 'port:undefined', 'elem:defined', 'k:open_circuit', 'complex', 'linear_src', 'thevenin', 'norton', 'circuit_sweep', 'resonance', 'dc_resistance']
+    return ['has_ideal_v', 'no_ideal_v', 'port:defined', 'port:undefined', 'elem:defined', 'k:open_circuit', 'complex', 'linear_src', 'thevenin', 'norton', 'circuit_sweep', 'resonance', 'dc_resistance', 'sweep_unsorted_with_repeat']
 
 
 def equivalent_sources():
     return importlib.import_module('CircuitCalculator.Network.equivalent_sources')
+
+
+def sweep_call(fn, args, warr, defined, salt, tg):
+    """one sweep call over the frequencies 'defined' (indices into warr) - in ascending order, or (every second time) in a shuffled order with
+    one frequency asked for twice: result[k] must be the impedance at w[k] whatever the order of w.  Returns ({index: value}, exception)"""
+    if not defined:
+        return {}, None
+    idxs = list(defined)
+    if salt % 2 and len(idxs) >= 2:
+        rng = random.Random(salt)
+        rng.shuffle(idxs)
+        idxs.append(idxs[0])
+        tg.add('sweep_unsorted_with_repeat')
+    gotd, e = call(fn, *args, warr[idxs])
+    if e is not None:
+        return {j: None for j in defined}, e
+    if len(gotd) != len(idxs):
+        return {j: None for j in defined}, ValueError(f'sweep over {len(idxs)} frequencies returned {len(gotd)} values')
+    got = {}
+    for n, j in enumerate(idxs):
+        if j in got and not close(gotd[n], got[j], abs(got[j]) + 1e-12, rtol=1e-12):
+            return {j2: None for j2 in defined}, ValueError(f'the same frequency asked for twice in one sweep gave {got[j]} and {gotd[n]}')
+        got.setdefault(j, gotd[n])
+    return got, None
 
 
 def replay(case, ctx):
@@ -163,8 +188,7 @@ def replay_circuit(case, ctx):
         for (x, y, field) in ((a, b, 'r'), (b, a, 'rba')):
             defined = [j for j, sw in enumerate(sweep) if [p for _, p in items(sw['z'])][k][field]['d']]
             # the sweep restricted to the frequencies at which the port impedance is defined (one undefined frequency would fail the whole call)
-            gotd, e = call(cimp.open_circuit_impedance, circuit, naming.node(x), naming.node(y), warr[defined]) if defined else (None, None)
-            got = {j: (gotd[n] if e is None else None) for n, j in enumerate(defined)}
+            got, e = sweep_call(cimp.open_circuit_impedance, (circuit, naming.node(x), naming.node(y)), warr, defined, h + k, tg)
             for j, sw in enumerate(sweep):
                 spec = [p for _, p in items(sw['z'])][k][field]
                 if not spec['d']:
@@ -188,8 +212,7 @@ def replay_circuit(case, ctx):
                                      'signature': 'value:circuit_dc_resistance', 'detail': ctxs})
     for i, c in enumerate(ng):
         defined = [j for j, sw in enumerate(sweep) if sw['ez'][i]['d']]
-        gotd, e = call(cimp.element_impedance, circuit, ids[c['id']], warr[defined]) if defined else (None, None)
-        got = {j: (gotd[n] if e is None else None) for n, j in enumerate(defined)}
+        got, e = sweep_call(cimp.element_impedance, (circuit, ids[c['id']]), warr, defined, h + 31 * i, tg)
         for j, sw in enumerate(sweep):
             spec = sw['ez'][i]
             if not spec['d']:
